@@ -282,6 +282,13 @@ def plan(path: str, rnd: random.Random, q: bool) -> list:
                     newdata = data0[:a0] + repl + data0[b0:]
                     span = end - hs
                     add("field", hs, [span >> 16, (span >> 8) & 255, span & 255, 1] + list(newdata), zid)
+    # a field's length prefix claiming (far) more bytes than the stream has: 256 MiB, 1 GiB, just under 2 GiB; through both kinds of
+    # stream (an in-memory stream clamps an oversized read, a file object allocates the requested size first)
+    for fid, hs, ds, end, zid in (fields if not q else rnd.sample(fields, 25) + fields[-4:]):
+        for payload in ([0xFF, 0xFF, 0xFF, 0x7F], [0x80, 0x80, 0x80, 0x80, 0x04], [0xFF, 0xFF, 0xFF, 0xFF, 0x07], [0xC5, 0xFF, 0xFF, 0xFF, 0x07]):
+            for parity in (0, 1):
+                add("subst", hs + 1, payload, zid)
+                tasks[-1] = tasks[-1][:5] + ((tasks[-1][5] // 2) * 2 + parity,)     # seed parity selects the stream kind
     structured = tasks[n_plain:]
     del tasks[n_plain:]
     # the shortest prefixes (inside and just after the version word) are always kept too
